@@ -44,6 +44,15 @@ Proof.
   subst. auto.
 Qed.
 
+(** every request gets exactly one reply; unless it is the Success response of the theorem above it is the plain
+    HTTP 500 or a response with one of four non-Success status codes, which carries no subject, attribute or signature *)
+Theorem C01_one_reply : forall form_ok form_id lookup_req app_entity userinfo cert_ok sign_ok,
+  exists r, cs_out (run_cb form_ok form_id lookup_req app_entity userinfo cert_ok sign_ok) = [r] /\
+            (is_success r = false -> failure_reply r).
+Proof. exact callback_one_reply. Qed.
+Theorem C01_failure_statuses : forallb (fun s => negb (beq s c_StatusCodeSuccess)) failure_statuses = true.
+Proof. exact failure_statuses_not_success. Qed.
+
 (** user data is not even fetched, and the signing key not touched, before the request is done *)
 Theorem C01_no_userinfo_before_done : forall form_ok form_id lookup_req app_entity userinfo cert_ok sign_ok rec,
   form_ok = true -> form_id <> [] -> lookup_req form_id = Some rec -> sr_done rec = false ->
@@ -82,6 +91,8 @@ Example C01_example :
 Proof. vm_compute. reflexivity. Qed.
 
 Print Assumptions C01_success_only_if_done.
+Print Assumptions C01_one_reply.
+Print Assumptions C01_failure_statuses.
 Print Assumptions C01_no_userinfo_before_done.
 Print Assumptions C01_no_panic.
 Print Assumptions C01_histories.
